@@ -7,6 +7,7 @@
 From PV Require Import Lib.Base Lib.Round Model.C13 Proofs.C13_lib Proofs.C13 Proofs.C13_pc Proofs.C13_decode.
 From PV Require Import Proofs.C13_round Proofs.C13_more Proofs.C13_scan Model.C13_Api Proofs.C13_api.
 From PV Require Import Model.C13_Hist Proofs.C13_hist.
+From PV Require Import Model.C13_Runs Proofs.C13_runs.
 From Coq Require Import QArith Qround Permutation Sorted.
 #[local] Open Scope Z_scope.
 
@@ -476,3 +477,76 @@ Theorem history_memo_sibling_refuted :
   /\ hrun copts_eqb false (hinit (hx_arr 60) (hx_arr 60)) ops = hspec (hx_arr 60) (hx_arr 60) ops.
 Proof. exact memo_sibling_lemma. Qed.
 Print Assumptions history_memo_sibling_refuted.
+
+(* ------------------------------------------------------------------------------------------------ *)
+(* round j extension (Model/C13_Runs.v, Proofs/C13_runs.v): what pianoroll_to_notearray returns for ANY integer
+   roll -- "all integer rolls of shape 128 or 88 by n for the inverse".  Until here arbitrary rolls had only
+   scan = row-wise decoding, sortedness and the shape refusal; `decode_row` needs runs separated by an empty frame. *)
+
+(* one row, every function f, every length: the run-length step returns (v, a, b) iff [a, b) is a MAXIMAL run of
+   the non-zero value v -- inside the row, all frames equal v, the frame before and the frame after are not v
+   (touching runs of different velocity are split, equal ones never) *)
+Theorem row_runs_are_maximal_runs : forall f n v a b,
+  In (v, a, b) (rle f n 0 None) <->
+  0 <= a /\ a < b /\ b <= Z.of_nat n /\ v <> 0 /\ (forall i, a <= i < b -> f i = v) /\
+  (a = 0 \/ f (a - 1) <> v) /\ (b = Z.of_nat n \/ f b <> v).
+Proof. exact rle_maxrun. Qed.
+Print Assumptions row_runs_are_maximal_runs.
+
+(* the code's own column scan with the `active_notes` dictionary, every roll (any row count, any cells): the
+   notes returned are exactly the maximal runs of the rows *)
+Theorem decoder_returns_maximal_runs : forall rows cols m p a b v, 0 <= cols ->
+  (In (p, a, b, v) (scan_frames rows cols m) <->
+   0 <= p < rows /\
+   (0 <= a /\ a < b /\ b <= cols /\ v <> 0 /\ (forall i, a <= i < b -> cell_at m p i = v) /\
+    (a = 0 \/ cell_at m p (a - 1) <> v) /\ (b = cols \/ cell_at m p b <> v))).
+Proof. exact scan_frames_in. Qed.
+Print Assumptions decoder_returns_maximal_runs.
+
+(* ... and no note is returned twice: together with decoder_returns_maximal_runs the returned list is, up to order,
+   THE list of the maximal runs (both decoders) *)
+Theorem decoder_returns_no_note_twice : forall rows cols m,
+  NoDup (scan_frames rows cols m) /\ NoDup (decode_frames rows cols m).
+Proof. exact scan_frames_NoDup. Qed.
+Print Assumptions decoder_returns_no_note_twice.
+
+(* decoding loses nothing and invents nothing: a non-zero cell lies in exactly one returned note, which carries
+   the cell's value; a returned note covers only cells holding its (non-zero) value *)
+Theorem decoder_covers_every_cell_once : forall rows cols m p j, 0 <= p < rows -> 0 <= j < cols ->
+  (cell_at m p j <> 0 ->
+     exists a b, In (p, a, b, cell_at m p j) (scan_frames rows cols m) /\ a <= j < b /\
+       forall a' b' v', In (p, a', b', v') (scan_frames rows cols m) -> a' <= j < b' ->
+                        v' = cell_at m p j /\ a' = a /\ b' = b) /\
+  (forall a b v, In (p, a, b, v) (scan_frames rows cols m) -> a <= j < b -> cell_at m p j = v /\ v <> 0).
+Proof. exact scan_covers. Qed.
+Print Assumptions decoder_covers_every_cell_once.
+
+(* the note array: its (pitch, onset, duration, velocity) rows are the maximal runs, pitch = row (+ 21 for an
+   88-row roll), onset = a / time_div, duration = (b - a) / time_div *)
+Theorem notearray_rows_are_maximal_runs : forall rows cols m td l q on du v, 0 <= cols ->
+  pianoroll_to_notearray_scan rows cols m td = Some l ->
+  (In (q, on, du, v) l <->
+   exists p a b, 0 <= p < rows /\ maxrun (cell_at m p) cols v a b /\ q = p + (if rows =? 128 then 0 else 21) /\
+                 on = (inject_Z a / inject_Z td)%Q /\ du = (inject_Z (b - a) / inject_Z td)%Q).
+Proof. exact notearray_scan_in. Qed.
+Print Assumptions notearray_rows_are_maximal_runs.
+
+(* the checker `check_decode_runs` of the correspondence evaluates this very statement on the implementation's output *)
+Theorem maximal_run_checker_sound : forall f n v a b, maxrun_b f n v a b = true <-> maxrun f n v a b.
+Proof. exact maxrun_b_spec. Qed.
+Print Assumptions maximal_run_checker_sound.
+
+(* instance, non-vacuity: a row 0 5 5 3 0 3 7 7 -- touching runs of different velocity, a re-struck pitch, a run
+   reaching the last frame *)
+Theorem example_maximal_runs :
+  rle runs_row 8 0 None = [(5, 1, 3); (3, 3, 4); (3, 5, 6); (7, 6, 8)] /\
+  maxrun runs_row 8 3 3 4 /\ maxrun runs_row 8 5 1 3.
+Proof. exact runs_example. Qed.
+Print Assumptions example_maximal_runs.
+
+(* the statement discriminates: the step that starts a new note only when the velocity RISES (cf. mutation m11)
+   returns (5, 1, 4) on that row, which is not a maximal run (frame 3 holds 3) *)
+Theorem split_on_rise_only_refuted :
+  In (5, 1, 4) (rle_rise runs_row 8 0 None) /\ ~ maxrun runs_row 8 5 1 4.
+Proof. exact rle_rise_refuted. Qed.
+Print Assumptions split_on_rise_only_refuted.
